@@ -110,6 +110,39 @@ theorem C06_phout_before_1s (s : Sample) (withId : Bool) :
   · intro h0 h1
     simp [encode, encodeBody, appendTimestamp_subsecond h0 h1]
 
+/-- the format hypothesis on the tag is needed: phout has no escaping. EVERY sample (timestamp ≥ 1 s) whose tag
+contains one TAB (reachable: `uri`-style ammo takes the tag verbatim from the file) gives a line of 13 columns
+instead of 12. The harness reports such inputs as `skip:out-of-format-tag`. -/
+theorem C06_phout_tab_in_tag (s : Sample) (withId : Bool) (a b : Bytes) (hms : 1000 ≤ s.ms)
+    (htag : s.tag = a ++ TAB :: b) (ha : TAB ∉ a) (hb : TAB ∉ b) :
+    ∃ body, encode s withId = some (body ++ [LF]) ∧ (splitOn TAB body).length = 13 := by
+  refine ⟨natDigits (s.ms.toNat / 1000) ++ DOT :: pad3 (s.ms.toNat % 1000) ++ TAB :: s.tag ++ idPart s withId
+      ++ fieldsPart s, ?_, ?_⟩
+  · unfold encode
+    rw [encodeBody_ge1000 s withId hms]
+    rfl
+  · have hk : s.ms.toNat % 1000 < 1000 := by omega
+    have hts := tsText_tabfree (s.ms.toNat / 1000) (s.ms.toNat % 1000) hk
+    have e : natDigits (s.ms.toNat / 1000) ++ DOT :: pad3 (s.ms.toNat % 1000) ++ TAB :: s.tag ++ idPart s withId ++ fieldsPart s
+        = (natDigits (s.ms.toNat / 1000) ++ DOT :: pad3 (s.ms.toNat % 1000)) ++
+          ((a :: (b ++ idPart s withId) :: s.fields.map intBytes).flatMap (fun t => TAB :: t)) := by
+      rw [htag, fieldsPart_eq]; simp
+    rw [e, splitOn_tokens _ _ hts]
+    · simp [Sample.fields]
+    · intro t ht
+      simp only [List.mem_cons] at ht
+      rcases ht with rfl | rfl | ht
+      · exact ha
+      · simp only [List.mem_append, not_or]; exact ⟨hb, tab_notin_idPart s withId⟩
+      · obtain ⟨v, _, rfl⟩ := List.mem_map.mp ht
+        exact tab_notin_intBytes v
+
+/-- non-vacuity -/
+example : ∃ s : Sample, 1000 ≤ s.ms ∧ s.tag = [97] ++ TAB :: [98] ∧ TAB ∉ ([97] : Bytes) ∧ TAB ∉ ([98] : Bytes) :=
+  ⟨{ ms := 1700000000123, tag := [97, 9, 98], id := 1, intervalReal := 1, connect := 2, send := 3, latency := 4,
+     receive := 5, intervalEvent := 6, sizeOut := 7, sizeIn := 8, netCode := 9, protoCode := 10 },
+   by decide, by decide, by decide, by decide⟩
+
 /-- **result file** — the lines of any number of in-format samples, concatenated, split on LF into exactly
 those lines (nothing after the last LF) and every one decodes to its sample, in order. -/
 theorem C06_phout_file (ss : List Sample) (withId : Bool) (h : ∀ s ∈ ss, InFormat s) :
@@ -365,6 +398,40 @@ example :
   decide
 
 end Queue2
+
+section Queue3
+open Pandora.Model.AggQueue
+
+/-- the literal strongest reading — EVERY completed Report call, also one made after the cancel while the
+pool is still winding down, is written or counted — as a statement … -/
+def C06_queue_every_report_statement : Prop :=
+  ∀ (cfg : Cfg) (progs : Nat → List Nat) (sched : List Ev),
+    let st := run cfg (init progs) sched
+    st.phase = .returned → (st.out ++ st.dropped).Perm st.reports
+
+/-- … is false for a cancelled run: a Report that completes after `Run` has returned (an instance whose shoot
+was in flight when the context was cancelled) lands in a queue nobody reads. What holds instead, for every
+schedule, is `C06_queue_any_schedule` / `C06_queue_reported_before_cancel` (everything reported before the
+cancel, indeed before `Run` returned), and for a run that ends by itself `C06_end_of_run_complete` (the pool
+issues the cancel only after the last Report). -/
+theorem C06_queue_every_report_counterexample : ¬ C06_queue_every_report_statement := by
+  intro h
+  have := h ⟨.encoder, 4⟩ (fun r => if r = 0 then [7] else []) [.cancel, .seeCancel, .drain, .report 0] (by decide)
+  have hl := this.length_eq
+  revert hl
+  decide
+
+/-- the part that holds without any hypothesis (`_partial` of the statement above): at the moment `Run`
+returns, for every schedule -/
+theorem C06_queue_every_report_partial (cfg : Cfg) (progs : Nat → List Nat) (pre : List Ev) :
+    let s0 := run cfg (init progs) pre
+    let s1 := step cfg s0 .drain
+    s0.phase = .draining → s0.q = [] → s1.phase = .returned ∧ (s1.out ++ s1.dropped).Perm s1.reports := by
+  intro s0 s1 h1 h2
+  have := (C06_queue_any_schedule cfg progs pre [] h1 h2).1
+  exact ⟨this.1, this.2.2.1⟩
+
+end Queue3
 
 /-! ## the result file of a whole run -/
 
